@@ -285,6 +285,54 @@ def r3b_accessors(rep, facts):
             rep.check(R, d, ok, f'{acc} <-> .{field}', f'`{d}` touches fields {fields} (expected exactly `{field}`, un-negated)', facts.loc(b))
 
 
+def r4_plumbing(rep, facts):
+    R = rep.rule('C09/R4', 'error plumbing: every CustomError constructed in the parser flows into a returned Err, an ok_or / ok_or_else / map_err argument or '
+                 'from_external_error(..); none is built and dropped', floor=20)
+    from .rules_c15 import with_ancestors
+    n = 0
+    for d, b in sorted(facts.bodies.items()):
+        if not d.startswith(P) or '::test::' in d or d.startswith(P + 'error::'):
+            continue
+        i = 0
+        for node, anc in with_ancestors(b['body']):
+            is_ctor = (node.get('k') == 'path' and (node.get('res') or '').startswith('Ctor') and 'parser::error::CustomError::' in (node.get('path') or '')) or \
+                (node.get('k') == 'struct' and (node.get('adt') or '').endswith('parser::error::CustomError')) or \
+                (node.get('k') == 'call' and (peel(node.get('f', {})).get('path') or '').startswith(P + 'error::CustomError::') and (peel(node.get('f', {})).get('res') in ('AssocFn', 'Fn')))
+            if not is_ctor:
+                continue
+            # a ctor path that is the callee of a counted call is not counted twice
+            if node.get('k') == 'path' and anc and anc[-1].get('k') == 'call' and anc[-1].get('f') is node:
+                continue
+            n += 1
+            key = f'{d.replace(P, "")}|CustomError#{i}'
+            i += 1
+            sink = None
+            dropped = False
+            for a in reversed(anc):
+                k = a.get('k')
+                if k == 'semi' and sink is None:
+                    dropped = True
+                    break
+                if k == 'ret':
+                    sink = sink or 'return'
+                if k == 'mcall' and a.get('name') in ('ok_or', 'ok_or_else', 'map_err'):
+                    sink = sink or a['name']
+                if k == 'call':
+                    fp = (peel(a.get('f', {})).get('path') or '')
+                    if fp.endswith('Result::Err'):
+                        sink = sink or 'Err(..)'
+                    if last_seg(fp) == 'from_external_error':
+                        sink = sink or 'from_external_error'
+                if k == 'closure' and sink is None:
+                    # value of a try_map / verify_map closure: Err(..) tail or `?` conversion inside the closure
+                    sink = None
+            # `CustomError::X` used through `?` (From conversion) inside a Result-returning closure
+            if sink is None and any(a.get('k') == 'match' and 'TryDesugar' in (a.get('src') or '') for a in anc):
+                sink = '?'
+            rep.check(R, key, sink is not None and not dropped, f'flows into {sink}', f'a CustomError is constructed in `{d.replace(P, "")}` but not returned (built and dropped): the definition error is silently ignored', facts.loc(b, node))
+    rep.info(R, f'{n} CustomError constructions')
+
+
 def rules(rep, facts):
     feats = set(facts.crates.get('toml_edit', {}).get('features', []))
     if 'toml_edit' not in facts.crates or 'parse' not in feats:
@@ -294,7 +342,7 @@ def rules(rep, facts):
     r2_occupied_is_error(rep, facts)
     r3_truth_tables(rep, facts)
     r3b_accessors(rep, facts)
-    rep.not_implemented = ['C09/R4 error plumbing (tier 2)']
+    r4_plumbing(rep, facts)
 
 
 def run(tier):
